@@ -374,6 +374,13 @@ func (b *wb) attestations(id int, holder int, force int) []int {
 		d1 := b.addToken(AToken{Iss: acct2, Aud: holder, Caps: []ACap{{Can: "other/thing", With: fmt.Sprintf("@%d", acct2), Nb: [][2]int{}}}, Exp: b.exp(), Signer: -1, Intact: true, AlgOk: false})
 		out = append(out, d1, mk(w.Authority, w.AuthorityKey, holder, authDid, [][2]int{{0, d1}}, nil))
 		b.attFirst = true
+	case 15: // an expired attestation by the authority first, then a stranger's attestation of this very token
+		a := mk(w.Authority, w.AuthorityKey, holder, authDid, [][2]int{{0, id}}, nil)
+		e := w.Now - farFuture
+		w.Tokens[a].Exp = &e
+		s := b.keyPrincipal(w.AuthorityKey)
+		out = append(out, a, mk(s, s, holder, authDid, [][2]int{{0, id}}, nil))
+		b.attFirst = true
 	case 13: // the authority's DID in other letter case: another string, not the authority
 		out = append(out, mk(w.Authority, w.AuthorityKey, holder, authDid+"^", [][2]int{{0, id}}, nil))
 	case 0: // none
